@@ -2137,6 +2137,11 @@ class Parameters:
             self_._instantiate_param(p)
         for p in params_to_ref.values():
             self_._instantiate_param(p, deepcopy=False)
+        # The name is a constant like any other: when no name was generated
+        # (a class declaring its own default) the instance keeps the default
+        # it was built with
+        if 'name' in objects and 'name' not in self._param__private.values:
+            self_._instantiate_param(objects['name'], deepcopy=False)
 
         ## keyword arg setting
         deps, refs = {}, {}
